@@ -32,11 +32,20 @@ package builtinfunctions
 //@   indom(entry.(map[string]any), "item") && entry.(map[string]any)["item"] == item && \
 //@   indom(entry.(map[string]any), "constant") && entry.(map[string]any)["constant"] == constant
 //
+// floatToString prints the shortest decimal text that reads back as the same 64-bit value, so
+// stringToFloat(floatToString(a)) == a for every number (NaN excluded: it is not equal to itself).
 //@ func getFloatToStringFunction$1
+//@   ensures [shortest-text-of-the-64-bit-value] result == fmtFloat(a, 102, -1, 64)
+//@ lemma floatToString_roundtrip(a float64)
+//@   requires !isNaN(a)
+//@   call s = getFloatToStringFunction$1(a)
+//@   call r = getStringToFloatFunction$1(s)
+//@   ensures [number-to-string-and-back-is-the-identity] r == a
 //@ func getFloatToFormattedStringFunction$1
 //@ func getIntToStringFunction$1
 //@ func getStringToIntFunction$1
 //@ func getStringToFloatFunction$1
+//@   ensures [reads-back-the-shortest-text] forall g float64 :: !isNaN(g) && s == fmtFloat(g, 102, -1, 64) ==> result1 == nil && result == g
 //@ func getStringToBoolFunction$1
 //@ func getReadFileFunction$1
 //@ func getGetEnvVarFunction$1
